@@ -264,9 +264,8 @@ class Local:
             out = v[slice(x[2], x[3], x[4])]  # R2
             if not out:
                 raise IllFormed("bad_index", "empty slice")
-            for b in (x[2], x[3]):
-                if b is not None and not (-len(v) <= b <= len(v)):
-                    raise IllFormed("bad_index", f"bound {b} of width {len(v)}")
+            # Bounds beyond [-w, w]: Python clamps; Hdl21 may clamp or reject (C03). Not
+            # ill-formed for this model, and not generated in valid programs either.
             return out
         if k == "cat":
             out = []
@@ -413,11 +412,13 @@ class Local:
             for seg, pm in elems:
                 self.children.append((seg, info["target"], pm))
         # R6: a no-connect is used once and its port is not referenced elsewhere
+        # (One no-connect object on two ports is contested ground - Hdl21 gives each port its
+        # own private net, which keeps "a no-connected port ends on a net with nothing else" -
+        # so the model accepts it with that meaning and the generators never produce it.)
         for ncid, uses in self.noconn_uses.items():
-            if len(uses) > 1:
-                raise IllFormed("noconn_shared", f"no-connect {ncid} on {uses}")
-            if uses[0] in self.pr_targets:
-                raise IllFormed("noconn_shared", f"no-connected port {uses[0]} is referenced")
+            for u in uses:
+                if u in self.pr_targets:
+                    raise IllFormed("noconn_shared", f"no-connected port {u} is referenced")
         # every port is connected, or referenced by a live port reference
         for iname, info in m.insts.items():
             ports = d.target_ports(info["target"])
